@@ -238,7 +238,8 @@ class WassersteinSpec(Spec):
 
     def configs(self, tier):
         # memory_size 48 / 96 / 144 bytes = transform blocks of 1 / 2 / 3 rows (LOT dimension 3 x 2 doubles)
-        return [{"metric": m, "memory_size": ms} for m in ("cosine", "euclidean") for ms in ("2G", "48", "96", "144")]
+        # "50k": blocks of ~1000 rows, i.e. more rows than the kernels' internal chunk of 256 rows fit into one block
+        return [{"metric": m, "memory_size": ms} for m in ("cosine", "euclidean") for ms in ("2G", "48", "96", "144", "50k")]
 
     def make(self, cfg):
         import vectorizers as V
